@@ -429,6 +429,11 @@ func (x *Exec) externInvoke(f *frame, in ssa.Instruction, c *ssa.CallCommon, arg
 	case name == "(context.Context).Value" || name == "(context.Context).Err" || name == "(context.Context).Done" || name == "(context.Context).Deadline":
 		x.assumed["extern "+name+": reads the context (no effect on modelled state; result unconstrained)"] = true
 		return x.resultVal(f.st, c.Signature(), "ctx"), true
+	case strings.HasSuffix(name, "/internal/xds/rbac.matcher).match") || strings.HasSuffix(name, "/internal/xds/matcher.HeaderMatcher).Match"):
+		// RBAC / header matchers: predicates over the request data (no effects; result unconstrained here,
+		// each implementation has its own contract)
+		x.assumed["extern "+name+": a predicate over the request data, no effect on modelled state"] = true
+		return x.resultVal(f.st, c.Signature(), "matchres"), true
 	case name == "(error).Error":
 		x.assumed["extern (error).Error: no effect on modelled state"] = true
 		return x.resultVal(f.st, c.Signature(), "errstr"), true
